@@ -54,7 +54,8 @@ Lemma glic_inner_eq : forall l cv vcv,
 Proof.
   induction l as [|a r IH]; intros cv vcv; [reflexivity|].
   cbn [src_get_last_integer_conversion_loop2 glic_loop2]. unfold arg_is_star, arg_is_conv, oconv_is. cbv zeta. cbn [fst snd].
-  destruct (a_kind a); destruct vcv as [[vi vb]|]; destruct cv as [[ci cb]|]; cbn [fst snd is_some negb andb]; rewrite ?Nat.eqb_refl; cbn [negb andb];
+  destruct (a_kind a); destruct vcv as [[vi vb]|]; destruct cv as [[ci cb]|]; cbn [fst snd is_some negb andb]; rewrite ?Nat.eqb_refl;
+    rewrite ?andb_true_r, ?andb_false_r; cbn [negb andb];
     repeat match goal with |- context [if ?c then _ else _] => destruct c eqn:? end; cbn [negb] in *; rewrite ?Nat.eqb_refl in *;
     try discriminate; try reflexivity; try apply IH.
 Qed.
